@@ -128,7 +128,7 @@ class Ctx:
             self._solver.push()
             self._added = (len(self.assumptions), len(self.axioms), 0)
 
-    def assume(self, cond):
+    def assume(self, cond, check=True):
         """run-scoped assumption (stub contracts): becomes part of the path condition"""
         if isinstance(cond, SB):
             if cond.concrete:
@@ -139,7 +139,7 @@ class Ctx:
         self.path.append(cond)
         # feasibility is only checked cheaply (linear part); a path made infeasible by a nonlinear
         # contract would discharge everything vacuously - the reachability twin guards against that
-        if is_linear(cond) and self.check_lin() == "unsat":
+        if check and is_linear(cond) and self.check_lin() == "unsat":
             raise Infeasible()
 
     def lin_solver(self):
